@@ -8,7 +8,6 @@ use crate::nat::{n, Nat};
 use crate::props::quotes::judge_reverse;
 use cosmwasm_std::{Addr, CanonicalAddr, Coin, MessageInfo, Uint128};
 use haloswap::asset::{Asset, AssetInfo, AssetInfoRaw, CreatePairRequirements, PairInfoRaw};
-use haloswap::formulas::{calculate_lp_token_amount_to_user, compute_offer_amount};
 use haloswap::router::SwapOperation;
 use serde_json::json;
 use std::collections::BTreeSet;
@@ -51,7 +50,7 @@ fn run_lp_share(t: &Tape, want_desc: bool) -> CaseResult {
         Asset { info: AssetInfo::NativeToken { denom: "a".into() }, amount: Uint128::new(r[0]) },
         Asset { info: AssetInfo::NativeToken { denom: "b".into() }, amount: Uint128::new(r[1]) },
     ];
-    let got = guarded(|| calculate_lp_token_amount_to_user(&info, &pair, Uint128::new(supply), [Uint128::new(d[0]), Uint128::new(d[1])], pools));
+    let got = guarded(|| crate::direct::lp_share(&info, &pair, supply, d, pools));
     let mut classes = vec![if first { "lp:first" } else { "lp:subsequent" }];
     let mut verdict = Verdict::Pass;
     let mut nontrivial = false;
@@ -61,7 +60,7 @@ fn run_lp_share(t: &Tape, want_desc: bool) -> CaseResult {
             classes.push("lp:error");
         }
         Ok(Ok(m)) => {
-            let m = m.u128();
+            let m = *m;
             classes.push("lp:share");
             if first {
                 let wl = whitelist.iter().any(|a| a.as_str() == sender);
@@ -134,13 +133,13 @@ fn run_reverse_formula(t: &Tape, want_desc: bool) -> CaseResult {
         3 => 1,
         _ => gen128(&mut s),
     };
-    let got = guarded(|| compute_offer_amount(Uint128::new(x), Uint128::new(y), Uint128::new(ask), to_dec(&n(c))));
+    let got = guarded(|| crate::direct::compute_offer_amount(x, y, ask, to_dec(&n(c))));
     let mut classes = vec![];
     let mut verdict = Verdict::Pass;
     let mut nontrivial = false;
     match &got {
         Err(_) => classes.push("b:abort"),
-        Ok((offer, _, _)) => match judge_reverse(x, y, ask, c, offer.u128()) {
+        Ok((offer, _, _)) => match judge_reverse(x, y, ask, c, *offer) {
             Ok(cl) => {
                 classes.push(cl);
                 nontrivial = cl == "b:within-bounds" && ask >= 1 && c > 0;
@@ -206,7 +205,7 @@ fn run_funds_check(t: &Tape, want_desc: bool) -> CaseResult {
     let native = s.chance(7, 8);
     let asset = if native { Asset { info: AssetInfo::NativeToken { denom: denom.to_string() }, amount: Uint128::new(declared) } } else { Asset { info: AssetInfo::Token { contract_addr: "token".into() }, amount: Uint128::new(declared) } };
     let info = MessageInfo { sender: Addr::unchecked("sender"), funds: funds.clone() };
-    let got = guarded(|| asset.assert_sent_native_token_balance(&info).is_ok());
+    let got = guarded(|| crate::direct::funds_check(&asset, &info));
     let attached = funds.iter().find(|c| c.denom == denom).map(|c| c.amount.u128()).unwrap_or(0);
     let expect_ok = !native || attached == declared;
     let mut classes = vec![];
@@ -284,8 +283,8 @@ fn run_pair_key(t: &Tape, want_desc: bool) -> CaseResult {
     let mut s = Src::new(&t.head);
     let a = [gen_raw_asset(&mut s), gen_raw_asset(&mut s)];
     let b = if s.chance(1, 4) { [a[1].clone(), a[0].clone()] } else { [gen_raw_asset(&mut s), gen_raw_asset(&mut s)] };
-    let ka = guarded(|| halo_factory::state::pair_key(&a));
-    let kb = guarded(|| halo_factory::state::pair_key(&b));
+    let ka = guarded(|| crate::direct::pair_key(&a));
+    let kb = guarded(|| crate::direct::pair_key(&b));
     // identity of an unordered set: the multiset of raw byte identifiers (a native denom and a
     // canonical address with the same bytes cannot both exist: lengths and alphabets differ)
     let set = |x: &[AssetInfoRaw; 2]| {
@@ -355,7 +354,7 @@ fn run_route_shape(t: &Tape, want_desc: bool) -> CaseResult {
         cur = ask.clone();
         ops.push(SwapOperation::HaloSwap { offer_asset_info: offer, ask_asset_info: ask });
     }
-    let got = guarded(|| halo_router::assert::assert_operations(&ops).is_ok());
+    let got = guarded(|| crate::direct::route_shape_ok(&ops));
     let mut set: BTreeSet<String> = BTreeSet::new();
     for SwapOperation::HaloSwap { offer_asset_info, ask_asset_info } in &ops {
         set.remove(&crate::sys::asset_key(offer_asset_info));
